@@ -75,6 +75,16 @@ class SimClock(object):
 CLOCK = SimClock()
 
 
+def stamp_file(path):
+    """File modification times belong to the simulated clock too: a file just
+    written by the system under test carries the simulated 'now' (whole
+    seconds, without advancing the clock), so anything keyed on mtime sees a
+    seed-decided value and same-second rewrites are reproducible."""
+    t = (SIM_EPOCH - _RealDatetime(1970, 1, 1)).total_seconds() + int(CLOCK.offset)
+    os.utime(path, (t, t))
+    return t
+
+
 class _Meta(type(_RealDatetime)):
     def __instancecheck__(cls, inst):
         return isinstance(inst, _RealDatetime)
